@@ -264,7 +264,7 @@ package collection
 //@   modifies nothing
 //@ func Collection.Nearby
 //@   requires c != nil && target != nil
-//@   iterates iter seq fromOff(rtNearby(c.spatial), cursor) args it position count - 1 - offset
+//@   iterates iter seq fromOff(rtNearby(c.spatial), cursor) args it, rtDist(c.spatial, k + offOf(cursor)) position count - 1 - offset
 //@   modifies steps
 //@   ensures [result] result == lastret
 //@   ensures [steps] cursor != nil ==> steps[cursor] == old(steps)[cursor] + offOf(cursor) + nvisited
